@@ -56,7 +56,7 @@ Print Assumptions C12_call_delivered.
 
 (* ... stated on the children of the `arguments` sequence as the receiver's state machine consumes them *)
 Theorem C12_call_delivered_stream : forall voc ms a kw, ms_wf ms -> args_guarded ms a kw ->
-  forall p k kb, send_call voc ms a kw = Some (p, k) -> code_kws kb = k ->
+  forall p k kb, send_call voc ms a kw = Some (p, k) -> code_kws kb = k -> names_text kb = true ->
   recv_arguments ms (enc_args p kb) = CInvoke a kw.
 Proof. exact c12_call_stream. Qed.
 Print Assumptions C12_call_delivered_stream.
